@@ -7,6 +7,7 @@ import (
 	"fmt"
 	"io"
 	"math/big"
+	"strings"
 
 	"github.com/bronlabs/bron-crypto/pkg/base/datastructures/hashset"
 	"github.com/bronlabs/bron-crypto/pkg/base/serde"
@@ -289,6 +290,9 @@ func (s *sig[X, W, A, S, Z]) Simulate(seed uint64, e []byte) error {
 	}
 	a, z, err := p.RunSimulator(s.x, e)
 	if err != nil {
+		if strings.Contains(err.Error(), "fixed-challenge simulator is not available") {
+			return errNoSimulator // documented: cggmp21 blummod has no fixed-challenge simulator
+		}
 		return &stepErr{"RunSimulator", err}
 	}
 	if err := p.Verify(s.x, a, e, z); err != nil {
@@ -296,6 +300,8 @@ func (s *sig[X, W, A, S, Z]) Simulate(seed uint64, e []byte) error {
 	}
 	return nil
 }
+
+var errNoSimulator = errors.New("the protocol documents that it has no fixed-challenge simulator")
 
 func (s *sig[X, W, A, S, Z]) SimulateUnder(seed uint64, eSim, e []byte) (bool, error) {
 	p, err := s.verifierProto(vlib.NewPRNG(seed, "simulator"), false)
